@@ -58,7 +58,7 @@ structure KTable where
   tail : Piece
   grad : List Mono
   grad0 : List Mono
-  deriving Repr
+  deriving Repr, DecidableEq
 
 /-! ## piece selection (the `if q > … elif …` chain), polymorphic in the number type -/
 section
